@@ -89,3 +89,26 @@ void to_object_bad(YR_EXTERNAL_VARIABLE* external)
   case EXTERNAL_VARIABLE_TYPE_STRING: set_s(external->value.s); break;
   }
 }
+
+/* R20.6: bytes of a sized string rewritten without its length */
+typedef struct _SIZED_STRING { unsigned length; unsigned flags; char c_string[1]; } SIZED_STRING;
+void* memcpy(void* d, const void* s, unsigned long n);
+int ss_overwrite_bad(SIZED_STRING* s, const char* v, unsigned n)
+{
+  if (n <= s->length)
+  {
+    memcpy(s->c_string, v, n);       /* length keeps its old value */
+    return 0;
+  }
+  return 1;
+}
+int ss_overwrite_good(SIZED_STRING* s, const char* v, unsigned n)
+{
+  if (n <= s->length)
+  {
+    memcpy(s->c_string, v, n);
+    s->length = n;
+    return 0;
+  }
+  return 1;
+}
